@@ -2,7 +2,7 @@
    list, prod, unit, sumbool map to OCaml natives; N/Z/positive/byte stay Coq datatypes. *)
 From Coq Require Import Extraction ExtrOcamlBasic.
 From ChitchatModel Require Import Base SMap Ids Params Bytes NodeState Stream DeltaWire Message
-  Cluster FD Chitchat World Monitors MonitorsP Listener Select Loop.
+  Cluster FD Chitchat World Monitors MonitorsD Listener Select Loop.
 Extraction Language OCaml.
 Extraction "model.ml"
   Byte.of_N Byte.to_N N.add N.mul N.div_eucl N.compare Z.add Z.mul Z.opp Z.compare Z.div_eucl
@@ -17,7 +17,7 @@ Extraction "model.ml"
   Bytes.id_len
   Monitors.c02_ok Monitors.c03_ok Monitors.c04_nodes_ok Monitors.c05_own_ok Monitors.c07_delta_ok
   Monitors.digest_excludes Monitors.c14_delta_ok Monitors.c12_sets_ok Monitors.c12_after_eval_ok Monitors.c13_watch_ok
-  MonitorsP.c14_offer_ok Monitors.c20_ok Monitors.kvs_eqb Monitors.ledger_max Monitors.any_reset
+  MonitorsD.c14_offer_ok MonitorsD.c14_agree_ok Monitors.c20_ok Monitors.kvs_eqb Monitors.ledger_max Monitors.any_reset
   Listener.subscribe Listener.unsubscribe Listener.trigger_event Listener.expected_calls
   Loop.step Loop.ls_init Loop.discipline
   Select.select_nodes_for_gossip Select.oracle_valid
